@@ -119,6 +119,31 @@ public class BigRat {
         return mk(q, sc);
     }
 
+    /** e^{-x} for a rational x >= 0, rounded to d decimal places (Taylor series in BigDecimal with guard digits;
+     *  cross-checked in RatLaws against the pure TLA+ partial sums of Closed!ExpSum) */
+    public static Value RExpNeg(Value a, Value d) {
+        BigInteger[] x = parse(a);
+        int k = ((IntValue) d).val;
+        if (x[0].signum() * x[1].signum() < 0) throw new RuntimeException("BigRat: RExpNeg of a negative number");
+        java.math.MathContext mc = new java.math.MathContext(k + 30);
+        BigDecimal xv = new BigDecimal(x[0]).divide(new BigDecimal(x[1]), mc);
+        // e^{-x} = 1 / e^{x}; e^{x} by argument reduction x = 2^m * y, y < 1/2
+        int m = 0;
+        BigDecimal y = xv;
+        BigDecimal half = new BigDecimal("0.5");
+        while (y.compareTo(half) > 0) { y = y.divide(BigDecimal.valueOf(2), mc); m++; }
+        BigDecimal term = BigDecimal.ONE, sum = BigDecimal.ONE;
+        BigDecimal eps = BigDecimal.ONE.movePointLeft(k + 25);
+        for (int i = 1; i < 10000; i++) {
+            term = term.multiply(y, mc).divide(BigDecimal.valueOf(i), mc);
+            sum = sum.add(term, mc);
+            if (term.abs().compareTo(eps) < 0) break;
+        }
+        for (int i = 0; i < m; i++) sum = sum.multiply(sum, mc);
+        BigDecimal r = BigDecimal.ONE.divide(sum, mc).setScale(k, java.math.RoundingMode.HALF_EVEN);
+        return mk(r.unscaledValue(), BigInteger.TEN.pow(k));
+    }
+
     /** a^n for an integer n (TLC int, may be negative) */
     public static Value RPow(Value a, Value n) {
         BigInteger[] x = parse(a);
